@@ -92,6 +92,7 @@ type FuncEnc struct {
 	seqLen map[string]string // spec-level sequences: element-array term -> length term
 	sentinelVals []string
 	linked map[string]bool
+	curState *State
 	cvSeen map[string]bool
 	storeReach map[string][]string // "Type.field" -> reach conditions of direct stores (all frames)
 }
@@ -143,6 +144,7 @@ type loopInfo struct {
 	header *ssa.BasicBlock
 	body   map[*ssa.BasicBlock]bool
 	phis   []*ssa.Phi
+	ghosts map[string]Term // ghost accumulators: value at the loop head
 }
 
 // sentinelSeen registers the value constant of an immutable sentinel error global and asserts it differs
@@ -222,6 +224,12 @@ func (fe *FuncEnc) assumeTypeInv(n string, t types.Type) {
 			fe.assume(fmt.Sprintf("(= (str.len %s) %d)", n, u.Len()))
 		}
 	case *types.Slice:
+		if isByteSlice(t) && fe.curState != nil {
+			if _, ok := fe.heapSorts["HB"]; ok {
+				// the backing byte array is at least as long as the slice's window
+				fe.assume(fmt.Sprintf("(=> (not (= (s_base %s) 0)) (>= (str.len (select %s (s_base %s))) (+ (s_off %s) (s_cap %s))))", n, fe.hget(fe.curState, "HB"), n, n, n))
+			}
+		}
 		fe.assume(fmt.Sprintf("(and (<= 0 (s_off %s)) (<= 0 (s_len %s)) (<= (s_len %s) (s_cap %s)) (=> (= (s_base %s) 0) (= (s_cap %s) 0)))", n, n, n, n, n, n))
 	}
 }
@@ -361,6 +369,10 @@ func (fe *FuncEnc) havocHeaps(st *State, why string, only func(name string) bool
 		n := fe.fresh(name + "_h")
 		fe.declConst(n, fe.heapSorts[name])
 		st.heap[name] = n
+		if name == "HB" {
+			// backing arrays have a fixed size
+			fe.assume(fmt.Sprintf("(forall ((qb Int)) (! (= (str.len (select %s qb)) (str.len (select %s qb))) :pattern ((select %s qb))))", n, old, n))
+		}
 		for _, r := range sortedKeys(fe.protected) {
 			fe.assume(fmt.Sprintf("(= (select %s %s) (select %s %s))", n, r, old, r))
 		}
